@@ -211,7 +211,7 @@ impl InnerLock {
     pub fn try_read(&self) -> bool {
         self.state
             .fetch_update(Acquire, Relaxed, |s| {
-                is_read_lockable(s).then_some(s + READ_LOCKED)
+                is_read_lockable(s).then(|| s + READ_LOCKED)
             })
             .is_ok()
     }
@@ -291,7 +291,7 @@ impl InnerLock {
     pub fn try_write(&self) -> bool {
         self.state
             .fetch_update(Acquire, Relaxed, |s| {
-                is_unlocked(s).then_some(s + WRITE_LOCKED)
+                is_unlocked(s).then(|| s + WRITE_LOCKED)
             })
             .is_ok()
     }
